@@ -90,6 +90,28 @@ Theorem legacy_not_flat_thm :
     flat_out legacy_nested_read = false.
 Proof. exact (@legacy_not_flat). Qed.
 
+Theorem lockprogs_single_section :
+    all_single_section lockprogs = true.
+Proof. exact (@lockprogs_single_section_l). Qed.
+
+Theorem single_section_shape :
+    forall p : prog,
+    flat_out p = true -> count_acq p <= 1 ->
+    p = [] \/
+    (exists (m : mode) (body : list instr),
+       p = Acq m :: body ++ [Rel m] /\ Forall (fun i : instr => i = Rd \/ i = Wr) body /\
+       (m = R -> Forall (fun i : instr => i = Rd) body)).
+Proof. exact (@single_section_shape_l). Qed.
+
+Theorem bundle_ops_atomic :
+    forall (name : string) (paths : list prog) (p : prog),
+    In (name, paths) lockprogs -> In p paths ->
+    p = [] \/
+    (exists (m : mode) (body : list instr),
+       p = Acq m :: body ++ [Rel m] /\ Forall (fun i : instr => i = Rd \/ i = Wr) body /\
+       (m = R -> Forall (fun i : instr => i = Rd) body)).
+Proof. exact (@bundle_ops_atomic_l). Qed.
+
 Print Assumptions lockprogs_flat.
 Print Assumptions derived_share_lock.
 Print Assumptions bundle_ops_safe.
@@ -103,3 +125,6 @@ Print Assumptions flat_completes_generic.
 Print Assumptions flat_out_app_generic.
 Print Assumptions nested_rlock_deadlocks_legacy.
 Print Assumptions legacy_not_flat_thm.
+Print Assumptions lockprogs_single_section.
+Print Assumptions single_section_shape.
+Print Assumptions bundle_ops_atomic.
